@@ -245,6 +245,33 @@ func solveOne(o *Obligation, timeoutS int) {
 	default:
 		o.Verdict = "undecided"
 	}
+	// undecided: split on the disjuncts of the path condition (one query per path)
+	if o.Verdict == "undecided" && !o.WantSat && o.splitOn == "" && o.Reach.S != "" && !o.Reach.IsTrue() {
+		leaves := o.Ctx.reachDisjuncts(o.Reach, 12)
+		if len(leaves) > 1 {
+			all := true
+			var secs float64
+			for _, l := range leaves {
+				sub := *o
+				sub.splitOn = l
+				sub.Verdict = ""
+				solveOne(&sub, timeoutS)
+				secs += sub.Secs
+				if sub.Verdict == "failed" {
+					o.Verdict, o.Model, o.Output, o.Solver = "failed", sub.Model, sub.Output, sub.Solver
+					all = false
+					break
+				}
+				if sub.Verdict != "discharged" {
+					all = false
+					break
+				}
+			}
+			if all {
+				o.Verdict, o.Solver, o.Secs = "discharged", fmt.Sprintf("path-split(%d)", len(leaves)), secs
+			}
+		}
+	}
 	// a failure under lemma-weakened assumptions is re-decided with the full definitions
 	if o.Verdict != "discharged" && !o.WantSat && !o.noHelpers {
 		for _, h := range o.Helpers {
